@@ -16,13 +16,65 @@ import (
 )
 
 type caseParams struct {
-	Mode    int  // 0 -, 1 --recent, 2 --force
-	Dry     bool // --dry-run
-	Verify  int  // 0 -, 1 --verify-remote, 2 +--when-unverified=continue, 3 +--verify-unreachable, 4 both
-	Server  int  // 0 holds everything, 1 lacks every reachable prunable candidate, 2 lacks every unreachable candidate
-	R, C, O int  // lfs.fetchrecentrefsdays, lfs.fetchrecentcommitsdays, lfs.pruneoffsetdays
-	Fx      bool // lfs.fetchexclude=b.bin
+	Mode    int    // 0 -, 1 --recent, 2 --force
+	Dry     bool   // --dry-run
+	Verify  int    // 0 -, 1 --verify-remote, 2 +--when-unverified=continue, 3 +--verify-unreachable, 4 both
+	Server  int    // 0 holds everything, 1 lacks every reachable prunable candidate, 2 lacks every unreachable candidate
+	R, C, O int    // lfs.fetchrecentrefsdays, lfs.fetchrecentcommitsdays, lfs.pruneoffsetdays
+	Exc     string // lfs.fetchexclude ("" = unset); one of the patterns of c05Pats
+	Inc     string // lfs.fetchinclude ("" = unset); one of the patterns of c05Pats
 	Cfgs    []int
+	// two-remote dimension (product "remotes"): remotes origin and upstream, each with its own LFS server
+	Two   bool
+	PR    int // lfs.pruneremotetocheck: 0 unset (= origin), 1 origin, 2 upstream
+	Track int // index into c05Tracks: settings that change git-lfs's *default* remote (never the prune remote)
+	Hold  int // index into c05Holds: which of the two LFS servers holds which prunable candidate
+}
+
+// pruneRemote is the remote the statement calls "the prune remote": lfs.pruneremotetocheck, default origin
+// (docs/man/git-lfs-prune.adoc, DEFAULT REMOTE).
+func (p caseParams) pruneRemote() string {
+	if p.PR == 2 {
+		return "upstream"
+	}
+	return "origin"
+}
+
+var c05PRNames = []string{"unset", "origin", "upstream"}
+
+// settings that select the remote git-lfs uses by default for fetch/push (config.Remote()); prune is documented
+// to use origin / lfs.pruneremotetocheck only, so none of them may change what prune retains or verifies
+var c05Tracks = []struct {
+	Name string
+	KV   [][2]string
+}{
+	{"none", nil},
+	{"branch.main.remote=upstream", [][2]string{{"branch.main.remote", "upstream"}, {"branch.main.merge", "refs/heads/main"}}},
+	{"remote.lfsdefault=upstream", [][2]string{{"remote.lfsdefault", "upstream"}}},
+	{"remote.pushdefault=upstream", [][2]string{{"remote.pushdefault", "upstream"}}},
+}
+
+// holdings of the two LFS servers over the prunable candidates (reachable ones first, then unreachable ones, each
+// group sorted by object name): state 0 = both servers hold it, 1 = origin's only, 2 = upstream's only, 3 = neither.
+// "all-*" gives every candidate the same state; "rot-k" gives candidate i the state (k+i) mod 4, so that one prune
+// sees objects in different states.  Objects that are not candidates are held by both servers.
+var c05Holds = []string{"all-both", "all-origin-only", "all-upstream-only", "all-neither", "rot-0", "rot-1", "rot-2", "rot-3"}
+
+func c05HoldState(hold, i int) int {
+	if hold < 4 {
+		return hold
+	}
+	return (hold - 4 + i) % 4
+}
+
+// lfs.fetchinclude / lfs.fetchexclude patterns and what they match according to gitignore(5) (the matching the man
+// pages name), written out per pattern so that the model contains no pattern matcher of its own
+var c05Pats = map[string]func(pth string) bool{
+	"b.bin":   func(pth string) bool { return path.Base(pth) == "b.bin" },                 // a file name, any directory
+	"a.bin":   func(pth string) bool { return path.Base(pth) == "a.bin" },                 // a file name, any directory
+	"*.bin":   func(pth string) bool { return strings.HasSuffix(path.Base(pth), ".bin") }, // every LFS file of the worlds
+	"d":       func(pth string) bool { return strings.HasPrefix(pth, "d/") },              // a directory (the form git-lfs-fetch(1) documents)
+	"d/a.bin": func(pth string) bool { return pth == "d/a.bin" },                          // one file by its full path
 }
 
 func (p caseParams) args() []string {
@@ -57,7 +109,14 @@ func (p caseParams) String() string {
 	for _, c := range p.Cfgs {
 		cf = append(cf, c05Ambient[c].Name)
 	}
-	return fmt.Sprintf("%s server=%d window(refs=%d,commits=%d,offset=%d) fetchexclude=%v ambient=%v", s, p.Server, p.R, p.C, p.O, p.Fx, cf)
+	r := fmt.Sprintf("%s server=%d window(refs=%d,commits=%d,offset=%d) fetchexclude=%q ambient=%v", s, p.Server, p.R, p.C, p.O, p.Exc, cf)
+	if p.Inc != "" {
+		r += fmt.Sprintf(" fetchinclude=%q", p.Inc)
+	}
+	if p.Two {
+		r += fmt.Sprintf(" two-remotes(pruneremotetocheck=%s default-remote-setting=%s servers=%s)", c05PRNames[p.PR], c05Tracks[p.Track].Name, c05Holds[p.Hold])
+	}
+	return r
 }
 
 // ambient user configuration that changes the shape of Git's output
@@ -101,7 +160,16 @@ func c05CfgText(base string, kv [][2]string) string {
 
 type demand struct{ Clause, Desc string }
 
-func c05Excluded(p caseParams, pth string) bool { return p.Fx && path.Base(pth) == "b.bin" }
+func c05Excluded(p caseParams, pth string) bool {
+	if p.Exc == "" {
+		return false
+	}
+	m, ok := c05Pats[p.Exc]
+	if !ok {
+		panic("C05 model: no reference semantics for pattern " + p.Exc)
+	}
+	return m(pth)
+}
 
 // demands returns, per LFS oid, the reasons for which the property requires the object to survive this prune.
 func (f *facts) demands(p caseParams) map[string][]demand {
@@ -171,14 +239,16 @@ func (f *facts) demands(p caseParams) map[string][]demand {
 			}
 		}
 	}
-	// unpushed w.r.t. the prune remote (origin): referenced by a commit reachable from a local branch or tag and
-	// not reachable from refs/remotes/origin/*, and not referenced by any commit that *is* reachable from there
+	// unpushed w.r.t. the prune remote (lfs.pruneremotetocheck, default origin): referenced by a commit reachable from
+	// a local branch or tag and not reachable from refs/remotes/<prune remote>/*, and not referenced by any commit
+	// that *is* reachable from there
 	var local, remote []string
+	remotePrefix := "refs/remotes/" + p.pruneRemote() + "/"
 	for _, r := range f.Refs {
 		switch {
 		case strings.HasPrefix(r.Name, "refs/heads/"), strings.HasPrefix(r.Name, "refs/tags/"):
 			local = append(local, r.Sha)
-		case strings.HasPrefix(r.Name, "refs/remotes/origin/"):
+		case strings.HasPrefix(r.Name, remotePrefix):
 			remote = append(remote, r.Sha)
 		}
 	}
@@ -354,8 +424,11 @@ func c05Eval(wd *world, p caseParams) (o evalOut) {
 	o.Cands = len(cands)
 
 	kv := [][2]string{{"lfs.fetchrecentrefsdays", fmt.Sprint(p.R)}, {"lfs.fetchrecentcommitsdays", fmt.Sprint(p.C)}, {"lfs.pruneoffsetdays", fmt.Sprint(p.O)}}
-	if p.Fx {
-		kv = append(kv, [2]string{"lfs.fetchexclude", "b.bin"})
+	if p.Exc != "" {
+		kv = append(kv, [2]string{"lfs.fetchexclude", p.Exc})
+	}
+	if p.Inc != "" {
+		kv = append(kv, [2]string{"lfs.fetchinclude", p.Inc})
 	}
 	if c05Attrs[wd.spec.Attr].Name == "diff=custom" {
 		kv = append(kv, [2]string{"diff.custom.textconv", "sed s/oid/xid/"}, [2]string{"diff.custom.command", "/bin/false"})
@@ -363,8 +436,58 @@ func c05Eval(wd *world, p caseParams) (o evalOut) {
 	for _, c := range p.Cfgs {
 		kv = append(kv, c05Ambient[c].KV...)
 	}
-	serverHas := map[string]bool{}
-	if p.Verify > 0 {
+	if p.Two {
+		if p.PR > 0 {
+			kv = append(kv, [2]string{"lfs.pruneremotetocheck", c05PRNames[p.PR]})
+		}
+		kv = append(kv, c05Tracks[p.Track].KV...)
+	}
+	serverHas := map[string]bool{} // what the LFS server of the *prune remote* holds
+	switch {
+	case p.Verify > 0 && p.Two:
+		// one LFS server per remote, reached through remote.<name>.lfsurl
+		srvO, srvU := fakelfs.New(), fakelfs.New()
+		defer srvO.Close()
+		defer srvU.Close()
+		var rc, uc []string
+		for _, oid := range cands {
+			if reach[oid] {
+				rc = append(rc, oid)
+			} else {
+				uc = append(uc, oid)
+			}
+		}
+		byName := func(l []string) {
+			sort.Slice(l, func(i, j int) bool { return wd.name(l[i]) < wd.name(l[j]) })
+		}
+		byName(rc)
+		byName(uc)
+		state := map[string]int{}
+		for i, oid := range append(rc, uc...) {
+			state[oid] = c05HoldState(p.Hold, i)
+		}
+		o.SrvVacuous = true
+		srvO.Lock()
+		srvU.Lock()
+		for oid := range before {
+			st := state[oid] // 0 (both) for objects that are not candidates
+			if st == 0 || st == 1 {
+				srvO.Objects[oid] = wd.data[oid]
+			}
+			if st == 0 || st == 2 {
+				srvU.Objects[oid] = wd.data[oid]
+			}
+			has := st == 0 || (st == 1 && p.pruneRemote() == "origin") || (st == 2 && p.pruneRemote() == "upstream")
+			if has {
+				serverHas[oid] = true
+			} else {
+				o.SrvVacuous = false
+			}
+		}
+		srvU.Unlock()
+		srvO.Unlock()
+		kv = append(kv, [2]string{"remote.origin.lfsurl", srvO.URL + "/c05-origin"}, [2]string{"remote.upstream.lfsurl", srvU.URL + "/c05-upstream"})
+	case p.Verify > 0:
 		srv := fakelfs.New()
 		defer srv.Close()
 		lack := map[string]bool{}
@@ -410,7 +533,7 @@ func c05Eval(wd *world, p caseParams) (o evalOut) {
 
 	// what the same prune would have to keep without flags that document giving something up
 	p0 := p
-	p0.Mode, p0.Fx = 0, false
+	p0.Mode, p0.Exc = 0, ""
 	dem0 := f.demands(p0)
 	del := map[string]bool{}
 	for _, oid := range o.Deleted {
@@ -460,10 +583,10 @@ var c05ClauseText = map[string]string{
 	"head":               "referenced by the current checkout (HEAD tree) of a worktree",
 	"index":              "referenced by the index of a worktree",
 	"stash":              "referenced by a stash",
-	"unpushed":           "referenced only by commits not yet pushed to the prune remote (origin)",
+	"unpushed":           "referenced only by commits not yet pushed to the prune remote (lfs.pruneremotetocheck, default origin)",
 	"recent-ref":         "referenced by a recent ref inside lfs.fetchrecentrefsdays+lfs.pruneoffsetdays",
 	"recent-commit":      "referenced by a recent commit inside lfs.fetchrecentcommitsdays+lfs.pruneoffsetdays of a retained tip",
 	"dry-run":            "deleted although --dry-run was given",
-	"verify-reachable":   "reachable and not held by the remote although --verify-remote was given",
-	"verify-unreachable": "unreachable and not held by the remote although --verify-remote --verify-unreachable was given",
+	"verify-reachable":   "reachable and not held by the (prune) remote's LFS server although --verify-remote was given",
+	"verify-unreachable": "unreachable and not held by the (prune) remote's LFS server although --verify-remote --verify-unreachable was given",
 }
